@@ -2,7 +2,7 @@
 From Coq Require Import NArith ZArith List Bool Arith Lia.
 Import ListNotations.
 From Coq Require Import Permutation.
-From OBI.C01 Require Import Model Proofs.
+From OBI.C01 Require Import Model Proofs FlatModel Flat.
 From OBI.Common Require Import Reseq.
 
 (** ReadSeqFileChunk, for EVERY splitter that answers inside its buffer, every buffer size B, every
@@ -196,24 +196,40 @@ Theorem C01_embl_text_cut : forall p0 cr post, cr = [] \/ cr = [13%N] ->
   /\ embl_parse (rstrip_eol (p0 ++ flat_end cr)) = embl_parse (p0 ++ flat_end cr).
 Proof. exact embl_text_cut. Qed.
 (** Composition for the flat formats: for every text accepted by the (repaired) chunk parser that ends with its
-    last "//" line (LF or CRLF) possibly followed by empty (LF) lines -- or consists of empty lines only --
-    and EVERY buffer size: chunks numbered 0..n-1 whose records, in the order of the numbers, are the records
-    of the file.  NOT covered (checked dynamically only): CR LF blank lines after the last "//". *)
+    last "//" line (LF or CRLF) possibly followed by ANY CR / LF bytes (empty LF lines, empty CR LF lines, stray
+    CR) -- or consists of CR / LF bytes only -- and EVERY buffer size: chunks numbered 0..n-1 whose records, in the
+    order of the numbers, are the records of the file.  ([flat_inv3]; round 1 covered LF-only blank lines.) *)
 Theorem C01_read_genbank : forall B file recs, (1 <= B)%nat ->
-  genbank_parse file = Some recs -> flat_inv2 file ->
+  genbank_parse file = Some recs -> flat_inv3 file ->
   exists l, chunker flat_split B file = Some l /\ map fst l = seq 0 (length l) /\ parse_chunks genbank_parse l = Some recs.
-Proof. exact read_genbank_blank. Qed.
+Proof. exact read_genbank_eols. Qed.
 Theorem C01_read_embl : forall B file recs, (1 <= B)%nat ->
-  embl_parse file = Some recs -> flat_inv2 file ->
+  embl_parse file = Some recs -> flat_inv3 file ->
   exists l, chunker flat_split B file = Some l /\ map fst l = seq 0 (length l) /\ parse_chunks embl_parse l = Some recs.
-Proof. exact read_embl_blank. Qed.
+Proof. exact read_embl_eols. Qed.
+(** ... delivered in file order whatever the order in which the parser workers hand the batches over *)
+Theorem C01_read_genbank_any_order : forall B file recs, (1 <= B)%nat ->
+  genbank_parse file = Some recs -> flat_inv3 file ->
+  exists l bs, chunker flat_split B file = Some l /\
+    Forall2 (fun c b => genbank_parse (snd c) = Some b) l bs /\ concat bs = recs /\
+    forall arr, Permutation arr (combine (map fst l) bs) -> out (run arr) = bs /\ pend (run arr) = [].
+Proof. exact read_genbank_any_order. Qed.
+Theorem C01_read_embl_any_order : forall B file recs, (1 <= B)%nat ->
+  embl_parse file = Some recs -> flat_inv3 file ->
+  exists l bs, chunker flat_split B file = Some l /\
+    Forall2 (fun c b => embl_parse (snd c) = Some b) l bs /\ concat bs = recs /\
+    forall arr, Permutation arr (combine (map fst l) bs) -> out (run arr) = bs /\ pend (run arr) = [].
+Proof. exact read_embl_any_order. Qed.
 
 Definition ex_gb_body : list N := [76;79;67;85;83;32;32;32;32;32;32;32;65;32;50;32;98;112;10;70;69;65;84;85;82;69;83;32;32;32;32;32;32;32;32;32;32;32;32;32;76;111;99;97;116;105;111;110;47;81;117;97;108;105;102;105;101;114;115;10;79;82;73;71;73;78;10;32;32;32;32;32;32;32;32;49;32;97;99;10;47;47;10;76;79;67;85;83;32;32;32;32;32;32;32;66;32;49;32;98;112;10;70;69;65;84;85;82;69;83;32;32;32;32;32;32;32;32;32;32;32;32;32;76;111;99;97;116;105;111;110;47;81;117;97;108;105;102;105;101;114;115;10;79;82;73;71;73;78;10;32;32;32;32;32;32;32;32;49;32;116;10]%N.
 Example C01_read_genbank_nonvacuous :
-  flat_inv2 ((ex_gb_body ++ flat_term []) ++ lfs 2) /\
-  option_map (@length _) (genbank_parse ((ex_gb_body ++ flat_term []) ++ lfs 2)) = Some 2%nat /\
-  option_map (@length _) (chunker flat_split 7 ((ex_gb_body ++ flat_term []) ++ lfs 2)) = Some 3%nat.
-Proof. split; [right; exists ex_gb_body, [], 2%nat; split; [reflexivity|auto]|]. vm_compute. split; reflexivity. Qed.
+  flat_inv3 ((ex_gb_body ++ flat_term [13]) ++ [13;10;13;13;10;10])%N /\
+  option_map (@length _) (genbank_parse ((ex_gb_body ++ flat_term [13]) ++ [13;10;13;13;10;10])%N) = Some 2%nat /\
+  option_map (@length _) (chunker flat_split 7 ((ex_gb_body ++ flat_term [13]) ++ [13;10;13;13;10;10])%N) = Some 2%nat.
+Proof.
+  split; [right; exists ex_gb_body, [13]%N, [13;10;13;13;10;10]%N; split; [reflexivity|split; [auto|repeat constructor]]|].
+  vm_compute. split; reflexivity.
+Qed.
 
 (** Transports.  io.ReadFull (the loop of io.ReadAtLeast) over ANY io.Reader that delivers the bytes of [data]
     -- any schedule of short reads (pipe, bufio, OneByteReader, a decompressor), io.EOF reported with the
@@ -225,7 +241,8 @@ Proof. exact readfull_any_transport. Qed.
 
 (** Independent specification for FASTA: a printer.  For every list of records and every layout (LF or CRLF per
     record, any blank/tab separator, with or without definition, ANY folding of the sequence into non-empty
-    lines, blank lines after any record) the chunk parser returns exactly the printed records ... *)
+    lines, nucleotides written in upper, lower or mixed case -- the record carries them lower-cased --, blank
+    lines after any record) the chunk parser returns exactly the printed records ... *)
 Theorem C01_fasta_print_parse : forall lrs, lrs <> [] -> Forall valid_fa lrs ->
   fasta_parse (print_fasta lrs) = Some (map snd lrs) /\ fa_complete (print_fasta lrs).
 Proof. exact fasta_print_parse. Qed.
@@ -239,7 +256,7 @@ Proof. exact read_fasta_printed. Qed.
 Example C01_fasta_print_nonvacuous :
   let r1 := mkrec [97;62]%N [100;32;62]%N [97;99;103;116;110]%N None None [] in
   let r2 := mkrec [98]%N [] [116]%N None None [] in
-  let l1 := mklay [13;10]%N [32;9]%N [[97;99];[103];[116;110]]%N [13;10;10]%N in
+  let l1 := mklay [13;10]%N [32;9]%N [[65;99];[71];[116;78]]%N [13;10;10]%N in
   let l2 := mklay [10]%N [32]%N [[116]]%N [] in
   valid_fa (l1, r1) /\ valid_fa (l2, r2) /\ fasta_parse (print_fasta [(l1, r1); (l2, r2)]) = Some [r1; r2].
 Proof.
@@ -250,7 +267,8 @@ Qed.
 
 (** Independent specification for FASTQ: for every list of records and every layout (LF / CRLF, separator,
     definition or not, any text on the '+' line, ANY quality bytes without CR/LF -- in particular quality
-    lines that start with '@' or '+' --, blank lines after any record), every quality shift, qualities read
+    lines that start with '@' or '+' --, nucleotides written in upper, lower or mixed case ([q_seq], delivered
+    lower-cased), blank lines after any record), every quality shift, qualities read
     or not: the chunk parser returns exactly the printed records, and so does the whole reader for every
     buffer size and every arrival order of the batches. *)
 Theorem C01_fastq_print_parse : forall shift withq lrs, lrs <> [] -> Forall (valid_fq shift withq) lrs ->
@@ -265,8 +283,8 @@ Proof. exact read_fastq_printed. Qed.
 Example C01_fastq_print_nonvacuous :
   let r1 := mkrec [97;64]%N [100;32;43]%N [97;99;103]%N (Some (unshift 33 [64;43;73])%N) None [] in
   let r2 := mkrec [98]%N [] [116]%N (Some (unshift 33 [43]%N)) None [] in
-  let l1 := mkql [13;10]%N [32;9]%N [97;64]%N [64;43;73]%N [13;10;10]%N in
-  let l2 := mkql [10]%N [32]%N [] [43]%N [] in
+  let l1 := mkql [13;10]%N [32;9]%N [97;64]%N [64;43;73]%N [13;10;10]%N [65;99;71]%N in
+  let l2 := mkql [10]%N [32]%N [] [43]%N [] [116]%N in
   valid_fq 33 true (l1, r1) /\ valid_fq 33 true (l2, r2) /\
   fastq_parse 33 true (print_fastq [(l1, r1); (l2, r2)]) = Some [r1; r2] /\
   option_map (@length _) (chunker fastq_split 6 (print_fastq [(l1, r1); (l2, r2)])) = Some 2%nat.
@@ -286,6 +304,83 @@ Example C01_flat_independent_nonvacuous :
   length (embl_parse_lines true ((w_em1 ++ [s_end]) ++ w_em2)) = 2%nat /\
   fastq_parse 33 false [64;97;10;97;99;10;43;10;73;73]%N <> None.
 Proof. vm_compute. repeat split; discriminate. Qed.
+
+(** Independent specification for GenBank: a printer.  A record is laid out as: LOCUS line (identifier, then anything);
+    optional DEFINITION line with continuation lines (each padded; the definition is their trimmed texts joined by one
+    blank); header lines that are no keyword lines (ACCESSION, VERSION, KEYWORDS ...); optional SOURCE line (padded
+    organism) followed by further header lines (ORGANISM, taxonomy, REFERENCE ...); FEATURES line; feature lines with or
+    without one /db_xref="taxon:DIGITS" line (taxid 1 when absent); ORIGIN line; sequence lines made of a 10-byte
+    numbering and 1..6 blank-separated groups in upper, lower or mixed case (delivered lower-cased); "//"; LF or CR LF
+    for the whole record; empty (LF or CR LF) lines after the "//".  For EVERY list of such records the chunk parser
+    returns exactly the printed records ... *)
+Theorem C01_genbank_print_parse : forall lrs, Forall valid_gb lrs -> genbank_parse (print_gb lrs) = Some (map snd lrs).
+Proof. exact genbank_print_parse. Qed.
+(** ... and so does the whole reader, for every buffer size and every arrival order of the parsed batches. *)
+Theorem C01_read_genbank_printed : forall B lrs, (1 <= B)%nat -> Forall valid_gb lrs ->
+  exists l bs, chunker flat_split B (print_gb lrs) = Some l /\
+    Forall2 (fun c b => genbank_parse (snd c) = Some b) l bs /\ concat bs = map snd lrs /\
+    forall arr, Permutation arr (combine (map fst l) bs) -> out (run arr) = bs /\ pend (run arr) = [].
+Proof. exact read_genbank_printed. Qed.
+
+Example C01_genbank_print_nonvacuous :
+  valid_gb (ex_gl1, ex_gr1) /\ valid_gb (ex_gl2, ex_gr2) /\
+  genbank_parse (print_gb [(ex_gl1, ex_gr1); (ex_gl2, ex_gr2)]) = Some [ex_gr1; ex_gr2] /\
+  option_map (@length _) (chunker flat_split 50 (print_gb [(ex_gl1, ex_gr1); (ex_gl2, ex_gr2)])) = Some 3%nat /\
+  gl_eol ex_gl1 = [13;10]%N /\ length (gl_def ex_gl1) = 3%nat /\ length (gl_seq ex_gl1) = 2%nat /\
+  gl_xref ex_gl2 = None /\ gl_blank ex_gl2 = [[10]; [13;10]; [10]]%N.
+Proof.
+  split; [exact ex_gb_valid1|]. split; [exact ex_gb_valid2|]. destruct ex_gb_print as [H1 H2].
+  split; [exact H1|]. split; [exact H2|]. repeat split; reflexivity.
+Qed.
+
+(** Independent specification for EMBL: ID line (identifier up to ';'); lines that no rule of the parser reacts to (XX,
+    AC, KW, OC, FH, FT without taxon, SQ ...) anywhere between; DE lines (padded, non-empty texts joined by one blank);
+    optional OS line; optional FT /db_xref="taxon:DIGITS" line; sequence lines of up to 6 blank-separated groups in any
+    case followed by the rest of the line (padding and position); "//"; LF or CR LF; empty lines after the "//". *)
+Theorem C01_embl_print_parse : forall lrs, Forall valid_embl lrs -> embl_parse (print_embl lrs) = Some (map snd lrs).
+Proof. exact embl_print_parse. Qed.
+Theorem C01_read_embl_printed : forall B lrs, (1 <= B)%nat -> Forall valid_embl lrs ->
+  exists l bs, chunker flat_split B (print_embl lrs) = Some l /\
+    Forall2 (fun c b => embl_parse (snd c) = Some b) l bs /\ concat bs = map snd lrs /\
+    forall arr, Permutation arr (combine (map fst l) bs) -> out (run arr) = bs /\ pend (run arr) = [].
+Proof. exact read_embl_printed. Qed.
+
+Example C01_embl_print_nonvacuous :
+  valid_embl (ex_el1, ex_er1) /\ valid_embl (ex_el2, ex_er2) /\
+  embl_parse (print_embl [(ex_el1, ex_er1); (ex_el2, ex_er2)]) = Some [ex_er1; ex_er2] /\
+  option_map (@length _) (chunker flat_split 50 (print_embl [(ex_el1, ex_er1); (ex_el2, ex_er2)])) = Some 3%nat.
+Proof.
+  split; [exact ex_embl_valid1|]. split; [exact ex_embl_valid2|]. exact ex_embl_print.
+Qed.
+
+(** The per-run tie between these specifications and the code.  On every run the check writes flat files with the
+    Python twin of the printers, runs the REAL parsers / readers on them, and hands (layouts, bytes) to Coq, which
+    DECIDES by vm_compute that the layouts are valid ([valid_gbb] / [valid_emblb]) and that the bytes are exactly
+    [print_gb] / [print_embl] of them ([pcase_ok]).  For every case that passes, the model parser returns the
+    generator's records and the whole model reader delivers them for every buffer size and arrival order: *)
+Theorem C01_printed_case_genbank : forall lrs b, pcase_ok (PGb lrs b) = true ->
+  genbank_parse b = Some (map snd lrs) /\
+  forall B, (1 <= B)%nat -> exists l bs, chunker flat_split B b = Some l /\
+    Forall2 (fun c x => genbank_parse (snd c) = Some x) l bs /\ concat bs = map snd lrs /\
+    forall arr, Permutation arr (combine (map fst l) bs) -> out (run arr) = bs /\ pend (run arr) = [].
+Proof. exact pcase_gb_sound. Qed.
+Theorem C01_printed_case_embl : forall lrs b, pcase_ok (PEm lrs b) = true ->
+  embl_parse b = Some (map snd lrs) /\
+  forall B, (1 <= B)%nat -> exists l bs, chunker flat_split B b = Some l /\
+    Forall2 (fun c x => embl_parse (snd c) = Some x) l bs /\ concat bs = map snd lrs /\
+    forall arr, Permutation arr (combine (map fst l) bs) -> out (run arr) = bs /\ pend (run arr) = [].
+Proof. exact pcase_embl_sound. Qed.
+Example C01_printed_case_nonvacuous :
+  pcase_ok (PGb [(ex_gl1, ex_gr1); (ex_gl2, ex_gr2)] (print_gb [(ex_gl1, ex_gr1); (ex_gl2, ex_gr2)])) = true /\
+  pcase_ok (PEm [(ex_el1, ex_er1); (ex_el2, ex_er2)] (print_embl [(ex_el1, ex_er1); (ex_el2, ex_er2)])) = true.
+Proof. exact pcase_examples. Qed.
+
+(** FastaChunkParser reads start[0] and start[1] of Peek(20) unchecked: a chunk of fewer than two bytes (a final
+    chunk ">" ) is a run-time panic, modelled as a failure like log.Fatalf.  Such a chunk never comes from a
+    printed (well-formed) file: C01_read_fasta_printed shows every chunk parses.  Any chunk the parser accepts has
+    at least two bytes: *)
+Theorem C01_fasta_chunk_two_bytes : forall t recs, fasta_parse t = Some recs -> (2 <= length t)%nat.
+Proof. intros t recs H. destruct t as [|c0 [|c1 t]]; try discriminate. cbn. lia. Qed.
 
 Print Assumptions C01_chunker_partition.
 Print Assumptions C01_chunker_partition_fasta.
@@ -326,3 +421,12 @@ Print Assumptions C01_fasta_print_parse.
 Print Assumptions C01_read_fasta_printed.
 Print Assumptions C01_fastq_print_parse.
 Print Assumptions C01_read_fastq_printed.
+Print Assumptions C01_read_genbank_any_order.
+Print Assumptions C01_read_embl_any_order.
+Print Assumptions C01_genbank_print_parse.
+Print Assumptions C01_read_genbank_printed.
+Print Assumptions C01_embl_print_parse.
+Print Assumptions C01_read_embl_printed.
+Print Assumptions C01_fasta_chunk_two_bytes.
+Print Assumptions C01_printed_case_genbank.
+Print Assumptions C01_printed_case_embl.
